@@ -34,7 +34,11 @@ impl Case {
     }
     /// usable in equality oracles
     pub fn comparable(&self) -> bool {
-        self.deterministic && !self.skip && !self.mentions_exempt()
+        self.deterministic && !self.skip && !self.mentions_exempt() && !self.heavy()
+    }
+    /// a single run takes more than a second (zstd level 22 allocates a huge window): kept out of the workloads
+    pub fn heavy(&self) -> bool {
+        self.program.source.contains("compression_level: 22")
     }
 }
 
